@@ -53,14 +53,15 @@ class Armorable(metaclass=abc.ABCMeta):
     #  - whitespace is ignored except when in a character class or escaped
     #  - anything after a '#' that is not escaped or in a character class is ignored, allowing for comments
     __armor_regex = re.compile(r"""# This capture group is optional because it will only be present in signed cleartext messages
-                         (^-{5}BEGIN\ PGP\ SIGNED\ MESSAGE-{5}(?:\r?\n)
+                         (^-{5}BEGIN\ PGP\ SIGNED\ MESSAGE-{5}[ \t]*(?:\r?\n)
                           # RFC 4880 section 7: one or more Hash armor headers (none at all if only MD5 is used),
                           # each a comma-delimited list, then exactly one empty line that is not part of the text
                           (?P<hashes>(?:Hash:[^\r\n]*(?:\r?\n))*)[ \t]*(?:\r?\n)
                           (?P<cleartext>(.*\r?\n)*(.*?(?=\r?\n-{5})))(?:\r?\n)
                          )?
                          # armor header line; capture the variable part of the magic text
-                         ^-{5}BEGIN\ PGP\ (?P<magic>[A-Z0-9 ,]+)-{5}(?:\r?\n)
+                         # (only white space may follow an armor header line or tail line, RFC 4880 6.2)
+                         ^-{5}BEGIN\ PGP\ (?P<magic>[A-Z0-9 ,]+)-{5}[ \t]*(?:\r?\n)
                          # try to capture all the headers into one capture group
                          # if this doesn't match, m['headers'] will be None
                          (?P<headers>(^.+:\ .*(?:\r?\n))+)?(?:[ \t]*\r?\n)?
@@ -70,7 +71,7 @@ class Armorable(metaclass=abc.ABCMeta):
                          # capture the armored CRC24 value; the checksum line is optional (RFC 4880 6.1: "MAY appear")
                          (?:^=(?P<crc>[A-Za-z0-9+/]{4})(?:\r?\n))?
                          # finally, capture the armor tail line, which must match the armor header line
-                         ^-{5}END\ PGP\ (?P=magic)-{5}(?:\r?\n)?
+                         ^-{5}END\ PGP\ (?P=magic)-{5}[ \t]*(?:\r?\n)?
                          """, flags=re.MULTILINE | re.VERBOSE)
 
     @property
